@@ -390,6 +390,9 @@ func runC09(e *Env) error {
 			e.Res.Violate("no-failing-input-found", "corr-exec-mismatch", "implementation and model disagree: "+diff, "correspondence Atlas.Exec.executeN", replay)
 		}
 	})
+	if e.Replay == "" {
+		c09Formats(e)
+	}
 	return nil
 }
 
